@@ -334,16 +334,18 @@ class OptionsDictionary(object):
         None
             Yields None after entering a temporary context.
         """
-        for option, val in kwargs.items():
-            if option not in self._context_cache:
-                self._context_cache[option] = []
-            self._context_cache[option].append(self[option])
-            self[option] = val
-        yield
-        for option in kwargs:
-            self[option] = self._context_cache[option].pop()
-            if len(self._context_cache[option]) == 0:
-                self._context_cache.pop(option)
+        saved = []
+        try:
+            for option, val in kwargs.items():
+                old = self[option]
+                self[option] = val
+                saved.append((option, old))
+            yield
+        finally:
+            # restore, in reverse order, the options that were actually changed, whether the
+            # context exits normally, by an exception, or was never fully entered.
+            for option, old in reversed(saved):
+                self[option] = old
 
     def declare(self, name, default=_UNDEFINED, values=None, types=None, desc='',
                 upper=None, lower=None, check_valid=None, allow_none=False, recordable=True,
